@@ -113,6 +113,10 @@ def _index_of(arr, lookup):
     # TODO: assertions to disable in production for performance reasons.
     # TODO: np.searchsorted(lookup, arr) is faster on small arrays with large
     # values
+    arr = np.asarray(arr)
+    if arr.dtype.kind == 'f':
+        # NumPy promotes mixed uint64/int64 ids (e.g. in np.intersect1d()) to float64.
+        arr = arr.astype(np.int64)
     lookup = np.asarray(lookup, dtype=np.int32)
     m = (lookup.max() if len(lookup) else 0) + 1
     tmp = np.zeros(m + 1, dtype=int)
